@@ -14,7 +14,15 @@ from c2lean_k import Unsupported, lit, var
 FE_TYPES = ('secp256k1_fe',)
 
 class FTranslator(K.Translator):
-    def fe_name(self, n, env):
+    def fe_name(self, n, env, out=None):
+        m = n
+        while m['kind'] in ('ParenExpr', 'ImplicitCastExpr') and (m['kind'] == 'ParenExpr' or m.get('castKind') in ('NoOp', 'BitCast')): m = m['inner'][0]
+        if m['kind'] == 'ConditionalOperator' and out is not None:      # `cond ? &a : &b` as an argument: select into a temporary
+            c, tc = self.expr(m['inner'][0], env, out)
+            na, nb = self.fe_name(m['inner'][1], env, out), self.fe_name(m['inner'][2], env, out)
+            tmp = self.fresh('sel')
+            out.append(('ite', K.fold(c), [('fe', 'set', tmp, na)], [('fe', 'set', tmp, nb)]))
+            return tmp
         lv = self.pointer(n, env)
         if lv[0] != 'struct': raise Unsupported('field argument ' + str(lv))
         return lv[1]
@@ -23,7 +31,7 @@ class FTranslator(K.Translator):
         name = self.callee_name(n)
         a = n['inner'][1:]
         short = name.replace('secp256k1_fe_impl_', 'fe_').replace('secp256k1_', '')
-        F = lambda i: self.fe_name(a[i], env)
+        F = lambda i: self.fe_name(a[i], env, out)
         def intarg(i):
             e, t = self.expr(a[i], env, out); e = K.fold(e)
             if e[0] != 'lit': raise Unsupported('non-literal integer argument of ' + name)
@@ -43,9 +51,15 @@ class FTranslator(K.Translator):
             out.append(('fe', 'cmov', F(0), F(1), K.fold(e))); return lit(0), (32, True)
         if short in ('fe_normalizes_to_zero', 'fe_normalizes_to_zero_var', 'fe_is_zero'):
             tmp = self.fresh('z'); out.append(('fe', 'isZero', tmp, F(0))); return var(tmp), (32, True)
+        if short in ('fe_inv', 'fe_inv_var') or name in ('secp256k1_fe_inv', 'secp256k1_fe_inv_var'):
+            out.append(('fe', 'inv', F(0), F(1))); return lit(0), (32, True)
+        if short in ('fe_is_square_var',) or name == 'secp256k1_fe_is_square_var':
+            tmp = self.fresh('sq'); out.append(('fe', 'isSquare', tmp, F(0))); return var(tmp), (32, True)
+        if name == '__builtin_expect':
+            return self.expr(a[0], env, out)
         if short == 'fe_is_odd':
             tmp = self.fresh('odd'); out.append(('fe', 'isOdd', tmp, F(0))); return var(tmp), (32, True)
-        if name.startswith('secp256k1_fe_impl_') or name in ('secp256k1_fe_inv', 'secp256k1_fe_inv_var', 'secp256k1_fe_sqrt', 'secp256k1_fe_get_b32', 'secp256k1_fe_set_b32_mod'):
+        if name.startswith('secp256k1_fe_impl_') or name in ('secp256k1_fe_get_b32', 'secp256k1_fe_set_b32_mod'):
             raise Unsupported('field primitive outside the FeIR fragment: ' + name)
         if name in ('secp256k1_memclear_explicit', 'memset'):
             raise Unsupported('memory call ' + name)
@@ -208,6 +222,11 @@ TARGETS = [
     ('ge_set_ge_zinv', 'secp256k1_ge_set_ge_zinv', ()),
     ('gej_eq_x_var', 'secp256k1_gej_eq_x_var', ()),
     ('ge_is_valid_var', 'secp256k1_ge_is_valid_var', ()),
+    # the square root (a fixed addition chain of 255 squarings and 13 multiplications, loops unrolled) and what is built on it
+    ('fe_sqrt', 'secp256k1_fe_sqrt', ()),
+    ('fe_equal', 'secp256k1_fe_equal', ()),
+    ('ge_set_xquad', 'secp256k1_ge_set_xquad', ()),
+    ('ge_set_xo_var', 'secp256k1_ge_set_xo_var', ()),
 ]
 
 
@@ -238,6 +257,18 @@ def patch_returns(tr):
 K.Translator.call_inline_scoped = patch_returns(None)
 
 
+SETS = {'group': None, 'ellswift': [
+    ('ge_x_on_curve_var', 'secp256k1_ge_x_on_curve_var', ()),
+    ('ge_x_frac_on_curve_var', 'secp256k1_ge_x_frac_on_curve_var', ()),
+    ('xswiftec_frac_var', 'secp256k1_ellswift_xswiftec_frac_var', ()),
+    ('xswiftec_var', 'secp256k1_ellswift_xswiftec_var', ()),
+    ('swiftec_var', 'secp256k1_ellswift_swiftec_var', ()),
+    ('xswiftec_inv_var', 'secp256k1_ellswift_xswiftec_inv_var', ()),
+    ('ge_set_gej', 'secp256k1_ge_set_gej', ()),
+    ('ge_set_gej_var', 'secp256k1_ge_set_gej_var', ()),
+]}
+
+
 def regenerate(_arg, repo, lean_dir):
     from c2lean import write_if_changed
     front = K.Front(repo, 'native')
@@ -246,9 +277,12 @@ def regenerate(_arg, repo, lean_dir):
             '/- GENERATED by tools/c2lean_f.py (mode F) from clang-14\'s typed AST of src/group_impl.h in the current working tree:',
             '   group-level functions as programs over field values. DO NOT EDIT. -/',
             'namespace SecpZkp', 'namespace Gen', 'namespace group', 'open MiniC FeIR', '']
-    for defname, cfn, alias in TARGETS:
+    setname = _arg or 'group'
+    tlist = TARGETS if setname == 'group' else SETS[setname]
+    body = [b.replace('namespace group', 'namespace ' + setname) for b in body]
+    for defname, cfn, alias in tlist:
         try:
-            tr = FTranslator(front, unroll=False)
+            tr = FTranslator(front, unroll=True)
             fn = tr.function(cfn, alias)
             ss = clean(fn['body'])
             body.append('/-- `%s`%s -/\ndef %s : FeIR.Fn := {\n  name := "%s"\n  body := [\n%s\n  ]\n}\n' %
@@ -258,12 +292,13 @@ def regenerate(_arg, repo, lean_dir):
         except Unsupported as e:
             errors.append('F:%s (%s): %s' % (defname, cfn, e))
     body.append('def all : List (String × FeIR.Fn) := [%s]' % ', '.join('("%s", %s)' % (n, n) for n in names))
-    body += ['', 'end group', 'end Gen', 'end SecpZkp', '']
-    write_if_changed(os.path.join(lean_dir, 'SecpZkp', 'Gen', 'F_group.lean'), '\n'.join(body))
+    body += ['', 'end ' + setname, 'end Gen', 'end SecpZkp', '']
+    write_if_changed(os.path.join(lean_dir, 'SecpZkp', 'Gen', 'F_%s.lean' % setname), '\n'.join(body))
     return {'errors': errors, 'targets': targets, 'obligations': len(names)}
 
 
 if __name__ == '__main__':
     root = os.path.dirname(os.path.dirname(os.path.abspath(__file__)))
-    r = regenerate('', os.environ.get('VERIF_REPO', '/repo'), os.environ.get('C2LEAN_OUT', os.path.join(root, 'lean')))
-    print(json.dumps(r, indent=1))
+    for a in (sys.argv[1:] or ['group', 'ellswift']):
+        r = regenerate(a, os.environ.get('VERIF_REPO', '/repo'), os.environ.get('C2LEAN_OUT', os.path.join(root, 'lean')))
+        print(json.dumps({'errors': r['errors'], 'ok': [t['name'] for t in r['targets']]}))
